@@ -270,13 +270,22 @@ def check_hedger(case, ctx):
     deriv = getattr(I, case["deriv"])(ul, call=case["call"], strike=case["strike"], maturity=case["steps"] * ul.dt)
     model = BlackScholes(deriv) if case["model"] == "bs" else WhalleyWilmott(deriv, a=case["a"])
     hedger = Hedger(model, model.inputs())
+    if case["sim_seed"] % 3 == 0:
+        # a hedger is used for many batches: an earlier batch (other paths, other batch size) precedes the checked one
+        torch.manual_seed(case["sim_seed"] + 1)
+        with ctx.sut("C18/hedger/simulate"):
+            deriv.simulate(n_paths=max(2, case["n_paths"] // 2))
+        with torch.no_grad():
+            with ctx.sut("C18/hedger/compute"):
+                hedger.compute_pl(deriv)
+        ctx.cls("hedger:reused")
     torch.manual_seed(case["sim_seed"])
     with ctx.sut("C18/hedger/simulate"):
         deriv.simulate(n_paths=case["n_paths"])
-    with torch.no_grad():
+    with torch.set_grad_enabled(case["sim_seed"] % 2 == 1):
         with ctx.sut("C18/hedger/compute"):
-            hedge = hedger.compute_hedge(deriv)
-            pnl = hedger.compute_pl(deriv)
+            hedge = hedger.compute_hedge(deriv).detach()
+            pnl = hedger.compute_pl(deriv).detach()
     N, H, Tn = hedge.shape
     ctx.check((N, H, Tn) == (case["n_paths"], 1, ul.spot.shape[1]), "C18/hedger/shape", f"hedge shape {tuple(hedge.shape)}")
     vol = ul.volatility
